@@ -60,6 +60,15 @@ def scenarios(rng):
         S.append((name, b1, op, [], [1]))
     item = ['cstr 2 ' + hx(b'item')]
     S.append(('add/to-object', b1 + item, 'addo 1 %s 2' % hx(key), ['onfail chk 2', 'onfail del 2'], [1]))
+    # the item arrives with a key of its own: owned (was a member elsewhere) or constant
+    owned_key = item + ['cobj 3', 'addo 3 =6f6c646b6579 2', 'deta 3 0 4', 'del 3']
+    const_key = item + ['cobj 3', 'addocs 3 =636f6e73746b6579 2', 'deta 3 0 4', 'del 3']
+    for nm, pre_item in (('owned-key', owned_key), ('const-key', const_key)):
+        S.append(('add/to-object/item-with-%s' % nm, b1 + pre_item, 'addo 1 %s 2' % hx(key), ['onfail chk 2', 'onfail del 2'], [1, -2]))
+        S.append(('add/to-object-cs/item-with-%s' % nm, b1 + pre_item, 'addocs 1 %s 2' % hx(key), ['onfail chk 2', 'onfail del 2'], [1, -2]))
+        S.append(('replace/in-object/item-with-%s' % nm, b1 + pre_item, 'repo 1 =6c6f6e67 2', ['onfail chk 2', 'onfail del 2'], [1, -2]))
+        S.append(('replace/in-object-cs/item-with-%s' % nm, b1 + pre_item, 'repocs 1 =6c6f6e67 2', ['onfail chk 2', 'onfail del 2'], [1, -2]))
+        S.append(('addref/to-object/target-with-%s' % nm, b1 + pre_item, 'addrefo 1 %s 2' % hx(key), ['del 1', 'chk 2', 'del 2', 'clr 1'], [1, 2]))
     S.append(('add/to-object-own-key', b1 + ['cobj 3', 'addo 3 %s 2' % hx(b'own'), 'deta 3 0 4', 'del 3'] if False else b1 + item + ['cobj 3', 'addo 3 =6f776e 2', 'deta 3 0 4', 'del 3'],
               'addo_self 1 2', ['onfail chk 2', 'onfail del 2'], [1]))
     tgt = ['build 2 ' + to_tn(treegen.gen_tree(rng, maxdepth=2))]
@@ -86,20 +95,18 @@ def build_case(cid, cfg, sc):
     body = list(setup)
     for s in pre:
         idx_pre[s] = len(body)
-        body.append('chk %d' % s)
+        body.append(('chk %d' % s) if s > 0 else ('chkn %d' % -s))
     tpos = len(body)
     body.append('ftarget ' + target)
     for s in pre:
-        if ('del %d' % s) in after and False:
-            continue
         idx_post[s] = len(body)
-        body.append('chk %d' % s)
-        body.append('text %d 0' % s)
+        body.append(('chk %d' % s) if s > 0 else ('chkn %d' % -s))
+        body.append(('text %d 0' % s) if s > 0 else 'size ~')
     smoke_at = len(body)
     body += SMOKE
     body += after
     for s in pre:
-        if not any(a.split()[-2:] == ['del', str(s)] or a == 'del %d' % s for a in after):
+        if s > 0 and not any(a.split()[-2:] == ['del', str(s)] or a == 'del %d' % s for a in after):
             body.append('del %d' % s)
     return (cid, cfg, ['fbegin'] + body + ['fend']), {'name': name, 'tpos': tpos, 'pre': idx_pre, 'post': idx_post, 'smoke': list(range(smoke_at, smoke_at + len(SMOKE))), 'nbody': len(body)}
 
@@ -162,7 +169,7 @@ def judge(prop, cl, info, cfg, out, wit, first):
             for s, ip in info['pre'].items():
                 a, b = it['R'].get(ip), it['R'].get(info['post'][s])
                 if a != b:
-                    out.vios.append(Violation(prop, 'C08/%s/pre-existing-tree-modified' % name, tag + ': tree in slot %d was %s before the failed call and %s after' % (s, a, b), wit(cl, info['tpos'])))
+                    out.vios.append(Violation(prop, 'C08/%s/%s' % (name, 'pre-existing-tree-modified' if s > 0 else 'argument-item-modified'), tag + ': %s in slot %d was %s before the failed call and %s after' % ('tree' if s > 0 else 'item', abs(s), a, b), wit(cl, info['tpos'])))
                 tb, tk = base['R'].get(info['post'][s] + 1), it['R'].get(info['post'][s] + 1)
                 if name.startswith(('print', 'duplicate', 'create', 'bulk', 'parse')) and tb != tk:
                     out.vios.append(Violation(prop, 'C08/%s/pre-existing-text-changed' % name, tag + ': pre-existing tree prints differently after the failed call', wit(cl, info['tpos'])))
